@@ -379,35 +379,41 @@ async fn run_helper_case(l: &[Val]) -> Val {
                         negotiated_gr: None,
                         negotiated_llgr: None,
                     };
+                    // eligibility first (gr_on_disconnect, the LLGR rule, admin-down) ...
+                    if !admin_down {
+                        disconnect.negotiated_gr = s
+                            .negotiated_gr
+                            .take()
+                            .and_then(|gr| gr_on_disconnect(&shutdown_reason, gr));
+                        if disconnect.negotiated_gr.is_some()
+                            || matches!(
+                                shutdown_reason,
+                                None | Some(crate::fsm::SessionDownReason::IoError)
+                            )
+                        {
+                            disconnect.negotiated_llgr = s.negotiated_llgr.take();
+                        }
+                    }
+                    // ... then the kept / stale-marked families are derived from the result
                     if !s.source.is_empty() {
                         let drop_families = families_to_drop_on_disconnect(
                             s.source.keys(),
-                            s.negotiated_gr.as_ref(),
-                            s.negotiated_llgr.as_ref(),
+                            disconnect.negotiated_gr.as_ref(),
+                            disconnect.negotiated_llgr.as_ref(),
                         );
-                        let stale_families: Vec<Family> = s
+                        let mut stale_families: Vec<Family> = disconnect
                             .negotiated_gr
                             .as_ref()
                             .map(|g| g.families.clone())
                             .unwrap_or_default();
+                        if let Some(llgr) = disconnect.negotiated_llgr.as_ref() {
+                            for (f, _) in &llgr.families {
+                                if !stale_families.contains(f) {
+                                    stale_families.push(*f);
+                                }
+                            }
+                        }
                         s.tables.unregister_peer(s.remote_addr, &drop_families, &stale_families);
-                    }
-                    disconnect.negotiated_gr = s
-                        .negotiated_gr
-                        .take()
-                        .and_then(|gr| gr_on_disconnect(&shutdown_reason, gr));
-                    if disconnect.negotiated_gr.is_some()
-                        || matches!(
-                            shutdown_reason,
-                            None | Some(crate::fsm::SessionDownReason::IoError)
-                        )
-                    {
-                        disconnect.negotiated_llgr = s.negotiated_llgr.take();
-                    }
-                    // run(): admin-down override
-                    if admin_down {
-                        disconnect.negotiated_gr = None;
-                        disconnect.negotiated_llgr = None;
                     }
                     apply_disconnect(&context, addr, &tables, disconnect).await;
                 }
